@@ -74,7 +74,15 @@ def st_case(draw, tier):
         leaves = tuple(leaves) + (doomed,)
         pair = (("leaf", i), prog) if draw(st.booleans()) else (prog, ("leaf", i))
         prog = ("chain",) + pair
-    if prog[0] not in ("leaf", "mat") and draw(st.integers(0, 9)) < 7:
+    if draw(st.integers(0, 9)) < 2:
+        # one transfer object used twice in the tree: bare, and directly below a materialization (either order)
+        from vf.core.prog import engine_of
+
+        here = engine_of(prog, leaves)
+        t = ("xfer", prog, 2 if here == 1 else 1)
+        pair = (t, ("mat", t, "mshared")) if draw(st.booleans()) else (("mat", t, "mshared"), t)
+        prog = ("chain",) + pair
+    elif prog[0] not in ("leaf", "mat") and draw(st.integers(0, 9)) < 7:
         m = ("mat", prog, "mroot")
         shape = draw(st.sampled_from(["plain", "op", "twice", "twice-op"]))
         prog = m
@@ -93,6 +101,11 @@ def st_case(draw, tier):
             max_size=10 if tier == "quick" else 14,
         )
     )
+    if prog[0] == "chain" and prog[1][0] != "leaf" and (prog[1] is prog[2][1] or prog[2] is prog[1][1]):
+        # shared-transfer shape: make sure the whole tree is processed before anything else evaluates the
+        # materialization, and that it is evaluated again afterwards
+        n = len(list(walk(prog)))
+        steps = [("process", n - 1)] + steps + [("execute", n - 1)]
     return (universe, leaves, prog, tuple(steps))
 
 
@@ -156,6 +169,32 @@ def passthrough_paths(rel, env, counts):
         passthrough_paths(rel.rhs, env, counts)
 
 
+def reached_materializations(rel):
+    """Materializations iteration.Engine.execute(rel) has to evaluate: the recursion stops at statically trivial
+    relations (documented short-cuts) and at relations that already carry a payload."""
+    from lsst.daf.relation import BinaryOperationRelation, MarkerRelation, Materialization, UnaryOperationRelation
+
+    out, stack, seen = [], [rel], set()
+    while stack:
+        r = stack.pop()
+        if id(r) in seen or r.max_rows == 0 or r.is_join_identity or r.payload is not None:
+            continue
+        seen.add(id(r))
+        if isinstance(r, Materialization):
+            out.append(r)
+        if isinstance(r, (UnaryOperationRelation, MarkerRelation)):
+            stack.append(r.target)
+        elif isinstance(r, BinaryOperationRelation):
+            stack.extend([r.rhs, r.lhs])
+    return out
+
+
+def c07_visited(rel, had_payload):
+    from vf.checks.c07 import visited_materializations
+
+    return list(visited_materializations(rel, had_payload))
+
+
 def injected(e):
     seen = set()
     while e is not None and id(e) not in seen:
@@ -190,7 +229,9 @@ def run_case(case, stats):
                 seen.add(id(n))
                 nodes.append(n)
         model = {id(n): n.payload for n in nodes}
-        proc = make_processor(env)
+        # in half of the histories transfers that are not materialized hand over the source engine's lazy rows
+        lazy_transfers = int(codec.digest(case)[:2], 16) % 2 == 1
+        proc = make_processor(env, lazy_transfers=lazy_transfers)
         hook_calls = {}
         mat_evaluated = set()
         revisited = False
@@ -357,6 +398,7 @@ def run_case(case, stats):
             if any(id(n) in mat_evaluated for n in touched_mats):
                 revisited = True
             paths_uncached(rel, env, set(), bound)
+            had_payload_before = {id(n) for n in lib_nodes(rel) if getattr(n, "payload", None) is not None}
             before = starts()
             expected = memo[id(pnode)]
             nlog = len(proc.log)
@@ -386,6 +428,15 @@ def run_case(case, stats):
                 if fired:
                     # the fault was raised inside the library call and the call still returned rows
                     raise Violation("fault-swallowed", f"{label}: the injected exception did not propagate; rows returned {got[:6]}", step=kind)
+            if got is not None and not faulty:
+                # an evaluation that completed has evaluated - and must have cached - every materialization it reached
+                for m in (reached_materializations(rel) if kind == "execute" else c07_visited(rel, had_payload_before)):
+                    if m.payload is None:
+                        raise Violation(
+                            "materialization-without-payload",
+                            f"{label}: materialization {m.name!r} was evaluated by this call but has no payload afterwards",
+                            step=kind,
+                        )
             if got is not None and got != expected:
                 raise Violation("rows-differ", f"{label}: expected {expected[:6]} got {got[:6]} (program {fmt(pnode, leaves)})", step=kind)
             after = starts()
